@@ -40,10 +40,10 @@ Qed.
 
 (* the pre-parse filter decides the documented rule on the analyzer's own endpoints *)
 Lemma raw_apply_spec c f e :
-  cfg_wf c = true -> analyzer_endpoints f = Some e -> loopback_mismatch f = false ->
+  cfg_wf c = true -> analyzer_endpoints f = Some e ->
   raw_apply (build c) f = spec_passes c e.
 Proof.
-  intros Hc Ha Hk. unfold raw_apply. rewrite (quick_agrees f e Ha Hk).
+  intros Hc Ha. unfold raw_apply. rewrite (quick_agrees f e Ha).
   destruct (analyzer_endpoints_wf f e Ha) as [Hs Hd].
   unfold spec_passes. rewrite <- (filter_model_spec c _ _ _ _ Hc Hs Hd). reflexivity.
 Qed.
@@ -62,38 +62,33 @@ Section Commute.
   Hypothesis step_inert : forall s p, analyzer_endpoints p = None -> step s p = (s, []).
 
   Lemma with_filter_step c s p :
-    cfg_wf c = true -> loopback_mismatch p = false ->
+    cfg_wf c = true ->
     with_filter (build c) step s p = if spec_admits c p then step s p else (s, []).
   Proof.
-    intros Hc Hk. unfold with_filter, spec_admits.
+    intros Hc. unfold with_filter, spec_admits.
     destruct (analyzer_endpoints p) as [e|] eqn:Ea.
-    - now rewrite (raw_apply_spec c p e Hc Ea Hk).
+    - now rewrite (raw_apply_spec c p e Hc Ea).
     - rewrite (step_inert s p Ea). now destruct (raw_apply (build c) p).
   Qed.
 
   Theorem commute c : cfg_wf c = true -> forall tau s,
-    (forall p, In p tau -> loopback_mismatch p = false) ->
     run (with_filter (build c) step) s tau = run step s (admitted_subtrace c tau).
   Proof.
     intros Hc. unfold admitted_subtrace.
-    induction tau as [|p t IH]; intros s Hk; [reflexivity|].
-    cbn [run filter]. rewrite (with_filter_step c s p Hc) by (apply Hk; now left).
+    induction tau as [|p t IH]; intros s; [reflexivity|].
+    cbn [run filter]. rewrite (with_filter_step c s p Hc).
     destruct (spec_admits c p).
-    - cbn [run]. destruct (step s p) as [s1 o1]. rewrite IH by (intros q Hq; apply Hk; now right).
-      reflexivity.
-    - rewrite IH by (intros q Hq; apply Hk; now right).
-      destruct (run step s (filter (spec_admits c) t)). reflexivity.
+    - cbn [run]. destruct (step s p) as [s1 o1]. rewrite IH. reflexivity.
+    - rewrite IH. destruct (run step s (filter (spec_admits c) t)). reflexivity.
   Qed.
 
   (* each worker of a pool runs the same glue over the frames sharded to it *)
   Corollary commute_worker c (shard : bytes -> nat) (w : nat) : cfg_wf c = true -> forall tau s,
-    (forall p, In p tau -> loopback_mismatch p = false) ->
     let mine := filter (fun p => Nat.eqb (shard p) w) in
     run (with_filter (build c) step) s (mine tau) = run step s (mine (admitted_subtrace c tau)).
   Proof.
-    intros Hc tau s Hk mine. unfold mine, admitted_subtrace.
+    intros Hc tau s mine. unfold mine, admitted_subtrace.
     rewrite filter_comm. apply (commute c Hc).
-    intros p Hp. apply filter_In in Hp. apply Hk, Hp.
   Qed.
 End Commute.
 
@@ -104,38 +99,28 @@ Proof. unfold analyse. now intros ->. Qed.
 
 Theorem commute_glue {St Out} (core : St -> endpoints -> bytes -> St * list Out) c :
   cfg_wf c = true -> forall tau s,
-  (forall p, In p tau -> loopback_mismatch p = false) ->
   run (process_packet core (Some (build c))) s tau
   = run (process_packet core None) s (admitted_subtrace c tau).
 Proof.
-  intros Hc tau s Hk. exact (commute St Out (analyse core) (analyse_inert core) c Hc tau s Hk).
+  intros Hc tau s. exact (commute St Out (analyse core) (analyse_inert core) c Hc tau s).
 Qed.
 
 Lemma admitted_subtrace_sound c tau p : In p (admitted_subtrace c tau) -> In p tau /\ spec_admits c p = true.
 Proof. unfold admitted_subtrace. apply filter_In. Qed.
 
-(* ---------- the known class is a real counterexample ---------- *)
+(* ---------- regression: the former known class (fixed by 3908c86) ---------- *)
 Definition hexb (s : bytes) : bytes := match read_hex s with Some b => b | None => [] end.
-(* 1e 00 00 00 | IPv4 10.0.0.1 -> 10.0.0.2, TCP 12345 -> 80, SYN *)
+(* 1e 00 00 00 | IPv4 10.0.0.1 -> 10.0.0.2, TCP 12345 -> 80, SYN: used to fail open *)
 Definition loopback_v4_frame : bytes :=
   hexb (bs "1e0000004500002800004000400600000a0000010a0000023039005000000000000000005002ffff00000000").
 Definition only_dst_443 : cfg_src :=
   {| c_deny := false; c_port := Some [PDst 443]; c_ip := None; c_sub := None |}.
 
 Lemma loopback_frame_facts :
-  loopback_mismatch loopback_v4_frame = true /\ cfg_wf only_dst_443 = true /\
-  quick_info loopback_v4_frame = None /\
+  cfg_wf only_dst_443 = true /\
   analyzer_endpoints loopback_v4_frame
   = Some {| e_src := V4 167772161; e_dst := V4 167772162; e_sport := 12345; e_dport := 80 |} /\
-  raw_apply (build only_dst_443) loopback_v4_frame = true /\
+  quick_info loopback_v4_frame = analyzer_endpoints loopback_v4_frame /\
+  raw_apply (build only_dst_443) loopback_v4_frame = false /\
   spec_admits only_dst_443 loopback_v4_frame = false.
 Proof. vm_compute. repeat split; reflexivity. Qed.
-
-(* with an analyzer that reports the endpoints of every packet it is given, the filtered run
-   reports a connection to port 80 under a filter that admits only destination port 443 *)
-Definition echo_core (s : unit) (e : endpoints) (p : bytes) : unit * list endpoints := (s, [e]).
-Lemma loopback_refutes_commutation :
-  loopback_mismatch loopback_v4_frame = true /\
-  run (process_packet echo_core (Some (build only_dst_443))) tt [loopback_v4_frame]
-  <> run (process_packet echo_core None) tt (admitted_subtrace only_dst_443 [loopback_v4_frame]).
-Proof. split; [vm_compute; reflexivity|]. vm_compute. discriminate. Qed.
